@@ -2,7 +2,7 @@
 """Writes /verif/MANIFEST.json from the table below (kept in one place so that it stays valid)."""
 import json, os, subprocess
 ROOT = os.path.dirname(os.path.dirname(os.path.abspath(__file__)))
-hooks_commit = "54f3e88"
+hooks_commits = ["54f3e88", "282fbb2"]
 CHECKS = {
  # id: (category, technique, text, note, design_ref)
  "C04": ("exploration", "runtime monitoring: independent reference controller (refctl) verifying every proof/signature/key against a real transport",
@@ -89,7 +89,7 @@ def main():
             "guard": "verif",
             "enable": "go build -tags verif (the ./check script builds every monitor with it; /verif/go.mod replaces github.com/brutella/hc by /repo)",
             "baseline_off_cmd": "cd /repo && GOFLAGS=-mod=mod GOPROXY=off GOSUMDB=off go test -vet=off -count=1 ./...",
-            "source_commits": [hooks_commit],
+            "source_commits": hooks_commits,
             "add_only": True,
         },
         "engines": [
